@@ -164,6 +164,32 @@ def type_swap_path(label, meter, msg, alternatives=None):
     return path, len(leaves)
 
 
+def free_clock_path(label, meter, msg):
+    """all 12 octets of one date-time (APDU header or list element) unconstrained: unspecified components, impossible dates,
+    out-of-range deviations, first and last representable days"""
+    def spans_of(o):
+        clk, pos = CR.split_frame(o)
+        out = [clk] if clk else []
+        root = CR.walk(o, pos, greedy=(meter == "kamstrup"))
+
+        def visit(node, parent, idx):
+            if node.kind in ("array", "struct"):
+                for i, k in enumerate(node.children):
+                    visit(k, node, i)
+            elif node.kind == "octets" and node.end - node.vstart == 12 and D._is_clock_slot(meter, parent, idx, o):
+                out.append((node.vstart, node.end))
+        visit(root, None, 0)
+        return out
+    spans = spans_of(msg)
+
+    def path(eng, ctx):
+        a, b = spans[eng.pick(len(spans))]
+        o = list(msg)
+        o[a:b] = [sym_octet(f"t{i}", "int") for i in range(12)]
+        run_all_decoders(eng, ctx, SBytes(o), f"{label}: date-time at {a} with 12 free octets")
+    return path, len(spans)
+
+
 def free_binary_path(n):
     def path(eng, ctx):
         k = 1 + eng.pick(n)
@@ -279,6 +305,11 @@ def scenarios(tier):
         out.append(Scenario(f"{meter} {n}: every item replaced in turn by an item of every other type (free value octets)", pth,
                             bounds={"items": nl, "replacement_types": [a[0] for a in ALTERNATIVES], "forms": "frame and body"}, domains=("decoders", "p1"), frontier=2, assumptions=A, replay_cap=40,
                             engine_opts={"path_time_limit": 120}, path_budget=8))
+    for meter, n in ([("aidon", "no_list_3"), ("kamstrup", "no_list_2_single_phase")] if q else [("aidon", "no_list_3"), ("aidon", "se_list"), ("kaifa", "no_list_3"), ("kaifa", "se_list"), ("kamstrup", "no_list_2_single_phase"), ("kamstrup", "no_list_1_three_phase")]):
+        pth, ns = free_clock_path(f"{meter} {n}", meter, D.fixture(meter, n))
+        if ns:
+            out.append(Scenario(f"{meter} {n}: each date-time with all 12 octets free (unconstrained)", pth, bounds={"date_times": ns, "free": "12 octets, no validity constraint"},
+                                domains=("decoders", "p1"), frontier=3, assumptions=A, replay_cap=60, engine_opts={"path_time_limit": 120}))
     for k in (range(0, 21) if not q else (0, 2, 3, 9, 10, 13, 14, 17, 18, 19)):
         out.append(Scenario(f"kaifa positional list re-cut to {k} items (count octet consistent), frame and body", recut_path(k), bounds={"items": k, "source": "Kaifa list 3 (18 items) cut / repeated"},
                             domains=("decoders", "p1"), frontier=1, workers=1, assumptions=A, replay_cap=10, engine_opts={"path_time_limit": 120}))
